@@ -36,6 +36,7 @@ type Scenario struct {
 	Steps        []string `json:"steps"`        // produce | poll | flush | begin | sleep | join2
 	SlowPartMs   int64    `json:"slowPartMs"`   // the partitioner sleeps this long (virtual): a Produce can be mid-partitioning when Close runs
 	LateProduces int      `json:"lateProduces"` // Produce calls started concurrently with Close
+	ParentCancel bool     `json:"parentCancel"` // built with WithContext(parent); parent is cancelled right before Close
 	HoldPoll     bool     `json:"holdPoll"`     // with BlockRebalanceOnPoll: a poll returned records and AllowRebalance was not called
 }
 
@@ -46,6 +47,7 @@ func gen(seed int64) Scenario {
 		sc.BlockReb = true
 		sc.HoldPoll = r.Intn(2) == 0
 	}
+	sc.ParentCancel = r.Intn(5) == 0
 	if r.Intn(3) == 0 {
 		sc.SlowPartMs = []int64{1, 100, 1500, 20000, 60000}[r.Intn(5)]
 		sc.LateProduces = 1 + r.Intn(3)
@@ -104,6 +106,11 @@ func runScenario(t *testing.T, rec *sim.Recorder, sc Scenario) {
 		}
 		if sc.Txn {
 			opts = append(opts, kgo.TransactionalID("tx-close"))
+		}
+		parent, parentCancel := context.WithCancel(context.Background())
+		defer parentCancel()
+		if sc.ParentCancel {
+			opts = append(opts, kgo.WithContext(parent))
 		}
 		var slow atomic.Int64
 		if sc.SlowPartMs > 0 {
@@ -191,6 +198,9 @@ func runScenario(t *testing.T, rec *sim.Recorder, sc Scenario) {
 		}
 		if sc.LateProduces > 0 {
 			time.Sleep(time.Duration(sc.Seed%3) * time.Millisecond)
+		}
+		if sc.ParentCancel {
+			parentCancel()
 		}
 		rec.Ev("close_call", "holding", holding)
 		start := time.Now()
